@@ -172,18 +172,19 @@ Proof.
       + cbn. rewrite Nat.sub_diag. split; [reflexivity|lia]. }
   destruct (crashed s4); [exact H4|].
   destruct (fault s4); [apply Nw_reopen; exact H4|].
-  apply Nw_reopen. apply Nw_prim; [apply Nw_write_hdr|]. 
-  unfold prim. destruct (crashed s4); [exact H4|]. destruct (fuel s4) as [[|n]|].
-  - eapply Nw_ext; [..|exact H4]; reflexivity.
-  - apply Nw_create_trunc.
-  - apply Nw_create_trunc.
+  assert (G : forall x, Nw x -> Nw (log_reopen 0 (prim f_write_hdr (prim f_create_trunc x)))).
+  { intros x Hx. apply Nw_reopen. apply Nw_prim; [apply Nw_write_hdr|].
+    unfold prim. destruct (crashed x); [exact Hx|]. destruct (fuel x) as [[|n]|].
+    - eapply Nw_ext; [..|exact Hx]; reflexivity.
+    - apply Nw_create_trunc.
+    - apply Nw_create_trunc. }
+  assert (A : forall ofl ab off, Nw (set_abort s4 ofl ab off)) by (intros; eapply Nw_ext; [..|exact H4]; reflexivity).
+  destruct (ofail s4) as [[|n9]|]; [apply A|apply G, A|apply G, A].
 Qed.
 
-Lemma Nw_logger_log c szs s : Nw s -> Nw (logger_log c szs s).
+Lemma Nw_logger_rest c s1 : Nw s1 -> Nw (logger_rest c s1).
 Proof.
-  intros H. unfold logger_log.
-  set (s1 := match szs with [] => s | _ => prim (f_write_recs szs) s end).
-  assert (H1 : Nw s1). { unfold s1. destruct szs; [exact H|]. apply Nw_prim; [apply Nw_write_recs|exact H]. }
+  intros H1. unfold logger_rest.
   set (s2 := if flushP c <=? now s1 - flushStamp s1 then set_flushStamp (prim f_flush s1) (now s1) else s1).
   assert (H2 : Nw s2).
   { unfold s2. destruct (flushP c <=? now s1 - flushStamp s1); [|exact H1]. apply Nw_vars.
@@ -192,13 +193,25 @@ Proof.
   destruct (cycleP c <=? now s2 - cycleStamp s2); [|exact H2]. apply Nw_vars. apply Nw_cycle. exact H2.
 Qed.
 
+Lemma Nw_logger_log c szs s : Nw s -> Nw (logger_log c szs s).
+Proof.
+  intros H. unfold logger_log.
+  set (s0 := set_abort s (ofail s) (aborted s) (offered s + length szs)).
+  assert (H0 : Nw s0) by (eapply Nw_ext; [..|exact H]; reflexivity).
+  set (s1 := match szs with [] => s0 | _ => prim (f_write_recs szs) s0 end).
+  assert (H1 : Nw s1). { unfold s1. destruct szs; [exact H0|]. apply Nw_prim; [apply Nw_write_recs|exact H0]. }
+  destruct (aborted s1); [exact H1|apply Nw_logger_rest; exact H1].
+Qed.
+
 Lemma Nw_step c s o : Nw s -> Nw (step c s o).
 Proof.
-  intros H. destruct o; cbn [step].
+  intros H. unfold step. destruct (aborted s); [exact H|]. destruct o.
   - apply Nw_vars, H.
   - apply Nw_vars. apply Nw_logger_log. apply Nw_prepare, Nw_reopen, H.
   - destruct (active s); [apply Nw_logger_log|]; exact H.
-  - destruct (active s); [|exact H]. apply Nw_vars. apply Nw_log_close.
+  - destruct (active s); [|exact H]. cbv zeta.
+    destruct (aborted (logger_log c szs s)); [apply Nw_logger_log, H|].
+    apply Nw_vars. apply Nw_log_close.
     destruct (negb (Nat.eqb (keep c) 0) && reuse c); [apply Nw_cycle|]; apply Nw_logger_log, H.
 Qed.
 
